@@ -68,6 +68,9 @@ func (r *Rand) Chance(p float64) bool {
 // Pick returns one of the given ints.
 func (r *Rand) Pick(v ...int) int { return v[r.Intn(len(v))] }
 
+// PickStr returns one of the given strings.
+func (r *Rand) PickStr(v ...string) string { return v[r.Intn(len(v))] }
+
 // Fill fills b with pseudo-random bytes.
 func (r *Rand) Fill(b []byte) {
 	for i := 0; i < len(b); i += 8 {
